@@ -237,6 +237,14 @@ class P8Formatter(BaseFormatter):
         # Discard empty label until one is found in the file.
         new_game.label = None
         new_game.version = data.version
+        def pad(new_section, empty_section):
+            # PICO-8 leaves out the rows at the end of a section that hold
+            # only default data. The region still has its full size.
+            missing = len(empty_section._data) - len(new_section._data)
+            if missing > 0:
+                new_section._data.extend(empty_section._data[-missing:])
+            return new_section
+
         for section in data.section_lines:
             if section == 'lua':
                 lualines = data.section_lines[section]
@@ -245,29 +253,33 @@ class P8Formatter(BaseFormatter):
                 new_game.lua = lua.Lua.from_lines(
                     lualines, version=data.version)
             elif section == 'gfx':
-                new_game.gfx = Gfx.from_lines(
-                    data.section_lines[section], version=data.version)
+                new_game.gfx = pad(Gfx.from_lines(
+                    data.section_lines[section], version=data.version),
+                    Gfx.empty(version=data.version))
                 my_map = getattr(new_game, 'map')
                 if my_map is not None:
                     my_map._gfx = new_game.gfx
             elif section == 'gff':
-                new_game.gff = Gff.from_lines(
-                    data.section_lines[section], version=data.version)
+                new_game.gff = pad(Gff.from_lines(
+                    data.section_lines[section], version=data.version),
+                    Gff.empty(version=data.version))
             elif section == 'map':
                 my_gfx = getattr(new_game, 'gfx')
-                new_game.map = Map.from_lines(
+                new_game.map = pad(Map.from_lines(
                     data.section_lines[section],
                     version=data.version,
-                    gfx=my_gfx)
+                    gfx=my_gfx), Map.empty(version=data.version))
             elif section == 'sfx':
                 new_game.sfx = Sfx.from_lines(
                     data.section_lines[section], version=data.version)
             elif section == 'music':
-                new_game.music = Music.from_lines(
-                    data.section_lines[section], version=data.version)
+                new_game.music = pad(Music.from_lines(
+                    data.section_lines[section], version=data.version),
+                    Music.empty(version=data.version))
             elif section == 'label':
-                new_game.label = Gfx.from_lines(
-                    data.section_lines[section], version=data.version)
+                new_game.label = pad(Gfx.from_lines(
+                    data.section_lines[section], version=data.version),
+                    Gfx.empty(version=data.version))
             else:
                 raise InvalidP8SectionError(section)
 
